@@ -243,6 +243,15 @@ def check_C06(chk):
     nd, n = emit(chk, "c06_emit", consts(MaxFrames="= 0", Classes="<- ClsSeg", Verifies="<- GateOn", MaxPending="= 1",
                                          MaxWrites="= 2", WLens="<- W8", EmWacc="<- S13", FrameOK="<- FrameReal"))
     replay(chk, nd, chk.seed)
+    # the transport fails in the middle of a frame (time limit, not ready, reset): write() reports it and the frame is not started
+    # again (LfsConn.WriteFail; a retry from byte 0 would put the accepted prefix on the wire twice)
+    mc(chk, "c06_wfail", consts(MaxFrames="= 0", Classes="<- ClsSeg", Verifies="<- GateOn", MaxPending="= 1",
+                                MaxWrites="= 2", WLens="<- W48", WriteFailures="= TRUE"), needs=("WriteFail", "WriteAccept"))
+    nd, n = emit(chk, "c06_emit_wfail", consts(MaxFrames="= 0", Classes="<- ClsSeg", Verifies="<- GateOn", MaxPending="= 1",
+                                               MaxWrites="= 2" if thorough else "= 1", WLens="<- W8", EmWacc="<- S13", FrameOK="<- FrameReal",
+                                               WriteFailures="= TRUE"))
+    for k in range(3):        # the three error kinds per flavour
+        replay(chk, nd, chk.seed + 20 + k)
     # the connection's own frames count too: a user write issued after a cancelled read must not cut into a half-written
     # keep-alive reply (everything that leaves is a sequence of whole frames: OutContig)
     mc(chk, "c06_cancel_write", consts(MaxFrames="= 1", Classes="<- ClsKa", Flavors="<- OnlyTokio", Verifies="<- GateOn", MaxPending="= 1",
